@@ -367,7 +367,7 @@ func (p *Prog) calleeKeys(pkg *packages.Package, c *ast.CallExpr) []string {
 func (p *Prog) callIs(pkg *packages.Package, c *ast.CallExpr, keys ...string) bool {
 	for _, k := range p.calleeKeys(pkg, c) {
 		for _, want := range keys {
-			if k == want {
+			if k == want || (strings.HasPrefix(k, "(") && toggleRecvStar(k) == want) {
 				return true
 			}
 		}
@@ -651,8 +651,8 @@ func (f *Flat) ReachNil(start []int, stop func(*GNode) bool) map[int]bool {
 									nf[l] = false
 								}
 							case *ast.UnaryExpr:
-								if _, isLit := ast.Unparen(rhs.X).(*ast.CompositeLit); isLit && rhs.Op == token.AND {
-									nf[l] = false
+								if rhs.Op == token.AND {
+									nf[l] = false // the address of anything is not nil
 								}
 							}
 						}
